@@ -80,7 +80,7 @@ def confirm(d):
     return res
 
 
-def run_checks(d, props, tier, inplace=False):
+def run_checks(d, props, tier, inplace=False, fast=False):
     """inplace: apply to /repo itself (and undo); otherwise use a scratch worktree + VERIF_REPO so that other
     work reading /repo is not disturbed."""
     res = {}
@@ -99,6 +99,8 @@ def run_checks(d, props, tier, inplace=False):
         env = dict(os.environ)
         env["VERIF_REPO"] = root
         env["VERIF_OUT"] = os.path.join(HERE, ".build", "seedout")  # keep evidence/ and replays/ of the unchanged tree intact
+        if fast:
+            env["VERIF_SKIP_MC"] = "1"  # the exhaustive TLC run of the processor model does not depend on the code
         for p in props:
             t0 = time.time()
             rc, out = sh("./check %s --tier %s" % (p, tier), cwd=HERE, env=env, timeout=7200)
@@ -121,6 +123,7 @@ def main():
     ap.add_argument("--check", default="")
     ap.add_argument("--tier", default="quick")
     ap.add_argument("--inplace", action="store_true")
+    ap.add_argument("--fast", action="store_true")
     a = ap.parse_args()
     d = os.path.abspath(a.dir)
     mp = os.path.join(d, "meta.json")
@@ -129,7 +132,7 @@ def main():
         meta["confirmed"] = confirm(d)
         print("confirm:", meta["confirmed"])
     if a.check:
-        meta.setdefault("checks", {}).update(run_checks(d, a.check.split(","), a.tier, a.inplace))
+        meta.setdefault("checks", {}).update(run_checks(d, a.check.split(","), a.tier, a.inplace, a.fast))
     json.dump(meta, open(mp, "w"), indent=1)
 
 
